@@ -1,4 +1,5 @@
 import ParryModel.C05.Model
+import ParryModel.C10.Model
 /-!
 # C01 model, part 2: `query/gjk/voronoi_simplex2.rs`, `voronoi_simplex3.rs`, `cso_point.rs` and the exits of
 `gjk::closest_points` (`gjk.rs`).
@@ -250,5 +251,214 @@ def result (s : Vs3 K) (prev : Bool) : V3 K × V3 K :=
       go (i+1) n (acc.1.add (pt.orig1.smul coord), acc.2.add (pt.orig2.smul coord))
   go 0 ((if prev then s.prevDim else s.dim) + 1) (V3.zero, V3.zero)
 end Vs3
+
+
+/-! ## `gjk::closest_points` (3-D) and the `*_support_map_support_map_with_params` entry points
+
+`fs dir` stands for `CSOPoint::from_shapes(pos12, g1, g2, dir)`. `Real::max_value()` (the `max_dist` of `distance`, the initial
+`max_bound`) is `none`: every finite value compares below it. -/
+
+/-- `GJKResult` (+ `panic` for the `assert!`s and the simplex panics) -/
+inductive GjkRes3 (K : Type) where
+  | intersection
+  | closest (p1 p2 dir : V3 K)
+  | proximity (dir : V3 K)
+  | noIntersection (dir : V3 K)
+  | panic
+
+/-- `Unit::try_new_and_get(v, min_norm)` -/
+def tryNewAndGet3 (v : V3 K) (minNorm : K) : Option (V3 K × K) :=
+  let sq := v.normSq
+  if minNorm * minNorm < sq then let n := Num.sqrt sq; some (v.sdiv n, n) else none
+
+/-- `x.is_finite()` with `Num` operations: `x - x == 0` fails exactly for `±∞` and NaN -/
+@[inline] def isFinite (x : K) : Bool := neq (x - x) 0
+
+/-- `CSOPoint::from_shapes(pos12, g1, g2, dir)`: `loc1`/`sup2` are `g1.local_support_point` and `g2.support_point(pos12, ·)` -/
+def fromShapes3 (loc1 : V3 K → V3 K) (sup2 : V3 K → V3 K) (dir : V3 K) : CSO3 K :=
+  CSO3.new (loc1 dir) (sup2 dir.neg)
+
+/-- what one pass through the loop body of `gjk::closest_points` does -/
+inductive GjkStep3 (K : Type) where
+  | exit (r : GjkRes3 K) (s : Vs3 K)
+  | next (s : Vs3 K) (proj oldDir : V3 K) (maxBound : K)
+
+/-- the loop body (everything between `loop {` and `niter += 1`) -/
+def gjkBody3 (fs : V3 K → CSO3 K) (maxDist : Option K) (exact : Bool)
+    (s : Vs3 K) (proj oldDir : V3 K) (maxBound : Option K) : GjkStep3 K :=
+  let epsRel : K := Num.sqrt epsTol
+  match tryNewAndGet3 proj.neg epsTol with
+  | none => .exit .intersection s                                  -- the origin is on the simplex
+  | some (dir, mb) =>
+    if (match maxBound with | some old => decide (old ≤ mb) | none => false) then
+      -- upper bounds inconsistencies
+      if exact then let r := s.result true; .exit (.closest r.1 r.2 oldDir) s else .exit (.proximity oldDir) s
+    else
+    let cso := fs dir
+    let minBound := -(dir.dot cso.point)
+    if !isFinite minBound then .exit .panic s else
+    if (match maxDist with | some md => decide (md < minBound) | none => false) then .exit (.noIntersection dir) s
+    else if !exact && decide (0 < minBound) && (match maxDist with | some md => decide (mb ≤ md) | none => true) then
+      .exit (.proximity oldDir) s
+    else if mb - minBound ≤ epsRel * mb then
+      -- the distance found has a good enough precision
+      if exact then let r := s.result false; .exit (.closest r.1 r.2 dir) s else .exit (.proximity dir) s
+    else
+    match s.addPoint cso with
+    | none => .exit .panic s
+    | some (s, false) =>
+      if exact then let r := s.result false; .exit (.closest r.1 r.2 dir) s else .exit (.proximity dir) s
+    | some (s, true) =>
+      match s.projectOriginAndReduce with
+      | none => .exit .panic s
+      | some (s, proj') =>
+        if s.dim = 3 then
+          if epsTol ≤ minBound then
+            if exact then let r := s.result true; .exit (.closest r.1 r.2 dir) s else .exit (.proximity dir) s
+          else .exit .intersection s                               -- point inside of the CSO
+        else .next s proj' dir mb
+
+/-- the loop with its `niter == 100` cap (`fuel` = remaining iterations) -/
+def gjkLoop3 (fs : V3 K → CSO3 K) (maxDist : Option K) (exact : Bool) :
+    Nat → Vs3 K → V3 K → V3 K → Option K → GjkRes3 K × Vs3 K
+  | 0, s, _, _, _ => (.noIntersection ⟨1, 0, 0⟩, s)
+  | fuel+1, s, proj, oldDir, maxBound =>
+    match gjkBody3 fs maxDist exact s proj oldDir maxBound with
+    | .exit r s => (r, s)
+    | .next s proj oldDir mb => gjkLoop3 fs maxDist exact fuel s proj oldDir (some mb)
+
+/-- `gjk::closest_points(pos12, g1, g2, max_dist, exact_dist, simplex)` -/
+def gjkClosestPoints3 (fs : V3 K → CSO3 K) (maxDist : Option K) (exact : Bool) (s : Vs3 K) : GjkRes3 K × Vs3 K :=
+  match s.projectOriginAndReduce with
+  | none => (.panic, s)
+  | some (s, proj) =>
+    match C10.tryNew3 proj 0 with
+    | none => (.intersection, s)
+    | some projDir => gjkLoop3 fs maxDist exact 100 s proj projDir.neg none
+
+/-- the common head of `distance_…_with_params` / `closest_points_…_with_params`: the start direction and the `reset` -/
+def gjkStart3 (fs : V3 K → CSO3 K) (translation : V3 K) (initDir : Option (V3 K)) (s : Vs3 K) : Vs3 K :=
+  let dir := match initDir with | none => translation.neg | some d => d
+  match C10.tryNew3 dir C10.eps with
+  | some d => s.reset (fs d)
+  | none => s.reset (fs ⟨1, 0, 0⟩)
+
+/-- `closest_points_support_map_support_map_with_params` -/
+def closestPointsSmSmWithParams3 (fs : V3 K → CSO3 K) (translation : V3 K) (prediction : K)
+    (s : Vs3 K) (initDir : Option (V3 K)) : GjkRes3 K × Vs3 K :=
+  gjkClosestPoints3 fs (some prediction) true (gjkStart3 fs translation initDir s)
+
+/-- `distance_support_map_support_map_with_params`; `none` = panic -/
+def distanceSmSmWithParams3 (fs : V3 K → CSO3 K) (translation : V3 K)
+    (s : Vs3 K) (initDir : Option (V3 K)) : Option K × Vs3 K :=
+  let r := gjkClosestPoints3 fs none true (gjkStart3 fs translation initDir s)
+  (match r.1 with
+   | .intersection => some 0
+   | .closest p1 p2 _ => some (p1.sub p2).norm
+   | .noIntersection _ => some 0
+   | _ => none, r.2)
+
+/-! ## `gjk::closest_points` (2-D) and the `*_support_map_support_map_with_params` entry points
+
+`fs dir` stands for `CSOPoint::from_shapes(pos12, g1, g2, dir)`. `Real::max_value()` (the `max_dist` of `distance`, the initial
+`max_bound`) is `none`: every finite value compares below it. -/
+
+/-- `GJKResult` (+ `panic` for the `assert!`s and the simplex panics) -/
+inductive GjkRes2 (K : Type) where
+  | intersection
+  | closest (p1 p2 dir : V2 K)
+  | proximity (dir : V2 K)
+  | noIntersection (dir : V2 K)
+  | panic
+
+/-- `Unit::try_new_and_get(v, min_norm)` -/
+def tryNewAndGet2 (v : V2 K) (minNorm : K) : Option (V2 K × K) :=
+  let sq := v.normSq
+  if minNorm * minNorm < sq then let n := Num.sqrt sq; some (v.sdiv n, n) else none
+
+
+/-- `CSOPoint::from_shapes(pos12, g1, g2, dir)`: `loc1`/`sup2` are `g1.local_support_point` and `g2.support_point(pos12, ·)` -/
+def fromShapes2 (loc1 : V2 K → V2 K) (sup2 : V2 K → V2 K) (dir : V2 K) : CSO2 K :=
+  CSO2.new (loc1 dir) (sup2 dir.neg)
+
+/-- what one pass through the loop body of `gjk::closest_points` does -/
+inductive GjkStep2 (K : Type) where
+  | exit (r : GjkRes2 K) (s : Vs2 K)
+  | next (s : Vs2 K) (proj oldDir : V2 K) (maxBound : K)
+
+/-- the loop body (everything between `loop {` and `niter += 1`) -/
+def gjkBody2 (fs : V2 K → CSO2 K) (maxDist : Option K) (exact : Bool)
+    (s : Vs2 K) (proj oldDir : V2 K) (maxBound : Option K) : GjkStep2 K :=
+  let epsRel : K := Num.sqrt epsTol
+  match tryNewAndGet2 proj.neg epsTol with
+  | none => .exit .intersection s                                  -- the origin is on the simplex
+  | some (dir, mb) =>
+    if (match maxBound with | some old => decide (old ≤ mb) | none => false) then
+      -- upper bounds inconsistencies
+      if exact then let r := s.result true; .exit (.closest r.1 r.2 oldDir) s else .exit (.proximity oldDir) s
+    else
+    let cso := fs dir
+    let minBound := -(dir.dot cso.point)
+    if !isFinite minBound then .exit .panic s else
+    if (match maxDist with | some md => decide (md < minBound) | none => false) then .exit (.noIntersection dir) s
+    else if !exact && decide (0 < minBound) && (match maxDist with | some md => decide (mb ≤ md) | none => true) then
+      .exit (.proximity oldDir) s
+    else if mb - minBound ≤ epsRel * mb then
+      -- the distance found has a good enough precision
+      if exact then let r := s.result false; .exit (.closest r.1 r.2 dir) s else .exit (.proximity dir) s
+    else
+    match s.addPoint cso with
+    | none => .exit .panic s
+    | some (s, false) =>
+      if exact then let r := s.result false; .exit (.closest r.1 r.2 dir) s else .exit (.proximity dir) s
+    | some (s, true) =>
+      match s.projectOriginAndReduce with
+      | none => .exit .panic s
+      | some (s, proj') =>
+        if s.dim = 2 then
+          if epsTol ≤ minBound then
+            if exact then let r := s.result true; .exit (.closest r.1 r.2 dir) s else .exit (.proximity dir) s
+          else .exit .intersection s                               -- point inside of the CSO
+        else .next s proj' dir mb
+
+/-- the loop with its `niter == 100` cap (`fuel` = remaining iterations) -/
+def gjkLoop2 (fs : V2 K → CSO2 K) (maxDist : Option K) (exact : Bool) :
+    Nat → Vs2 K → V2 K → V2 K → Option K → GjkRes2 K × Vs2 K
+  | 0, s, _, _, _ => (.noIntersection ⟨1, 0⟩, s)
+  | fuel+1, s, proj, oldDir, maxBound =>
+    match gjkBody2 fs maxDist exact s proj oldDir maxBound with
+    | .exit r s => (r, s)
+    | .next s proj oldDir mb => gjkLoop2 fs maxDist exact fuel s proj oldDir (some mb)
+
+/-- `gjk::closest_points(pos12, g1, g2, max_dist, exact_dist, simplex)` -/
+def gjkClosestPoints2 (fs : V2 K → CSO2 K) (maxDist : Option K) (exact : Bool) (s : Vs2 K) : GjkRes2 K × Vs2 K :=
+  match s.projectOriginAndReduce with
+  | none => (.panic, s)
+  | some (s, proj) =>
+    match C10.tryNew2 proj 0 with
+    | none => (.intersection, s)
+    | some projDir => gjkLoop2 fs maxDist exact 100 s proj projDir.neg none
+
+/-- the common head of `distance_…_with_params` / `closest_points_…_with_params`: the start direction and the `reset` -/
+def gjkStart2 (fs : V2 K → CSO2 K) (translation : V2 K) (initDir : Option (V2 K)) (s : Vs2 K) : Vs2 K :=
+  let dir := match initDir with | none => translation.neg | some d => d
+  match C10.tryNew2 dir C10.eps with
+  | some d => s.reset (fs d)
+  | none => s.reset (fs ⟨1, 0⟩)
+
+/-- `closest_points_support_map_support_map_with_params` -/
+def closestPointsSmSmWithParams2 (fs : V2 K → CSO2 K) (translation : V2 K) (prediction : K)
+    (s : Vs2 K) (initDir : Option (V2 K)) : GjkRes2 K × Vs2 K :=
+  gjkClosestPoints2 fs (some prediction) true (gjkStart2 fs translation initDir s)
+
+/-- `distance_support_map_support_map_with_params`; `none` = panic -/
+def distanceSmSmWithParams2 (fs : V2 K → CSO2 K) (translation : V2 K)
+    (s : Vs2 K) (initDir : Option (V2 K)) : Option K × Vs2 K :=
+  let r := gjkClosestPoints2 fs none true (gjkStart2 fs translation initDir s)
+  (match r.1 with
+   | .intersection => some 0
+   | .closest p1 p2 _ => some (p1.sub p2).norm
+   | .noIntersection _ => some 0
+   | _ => none, r.2)
 
 end Model.Gjk
